@@ -51,6 +51,10 @@ pub struct MonState {
     /// Contract violations observed (model falsifying a clause/assumption, n_vars shrinking, ...).
     pub contract_errors: Vec<String>,
     pub cap_hit: bool,
+    /// Wall-clock cap (see `set_query_wall_cap`): time of the first call since the last reset, and whether
+    /// the query was abandoned because it ran longer than the cap (inconclusive, never a violation).
+    pub query_started: Option<std::time::Instant>,
+    pub time_hit: bool,
 }
 
 impl MonState {
@@ -59,7 +63,20 @@ impl MonState {
         self.n_calls = 0;
         self.injected = false;
         self.cap_hit = false;
+        self.query_started = None;
+        self.time_hit = false;
     }
+}
+
+thread_local! {
+    static QUERY_WALL_CAP: std::cell::Cell<Option<std::time::Duration>> = const { std::cell::Cell::new(None) };
+}
+
+/// Monitored solvers of this thread abandon a query (panic with CAP_MARKER, `time_hit` set) whose SAT calls
+/// span more than `d` of wall-clock time.  Used by the checks that also draw frameworks of hundreds of
+/// arguments, where a single legitimate enumeration may be intractable: such a query is inconclusive.
+pub fn set_query_wall_cap(d: Option<std::time::Duration>) {
+    QUERY_WALL_CAP.with(|c| c.set(d));
 }
 
 pub type MonHandle = Rc<RefCell<MonState>>;
@@ -157,6 +174,18 @@ impl SatSolver for MonitorSolver {
         if let Some(c) = cap {
             if call_no > c {
                 self.state.borrow_mut().cap_hit = true;
+                panic!("{}", CAP_MARKER);
+            }
+        }
+        if let Some(limit) = QUERY_WALL_CAP.with(|c| c.get()) {
+            let now = std::time::Instant::now();
+            let over = {
+                let mut s = self.state.borrow_mut();
+                let start = *s.query_started.get_or_insert(now);
+                now.duration_since(start) > limit
+            };
+            if over {
+                self.state.borrow_mut().time_hit = true;
                 panic!("{}", CAP_MARKER);
             }
         }
